@@ -107,6 +107,33 @@ let () =
          Printf.printf "END=%s\n" (match r.s_end with
              | SeErr -> "err" | SeClosed -> "closed" | SePanic -> "panic" | SeHang -> "hang"
              | SeWaitClose -> "wait-close" | SeNegBlocked -> "neg-blocked" | SeOutOfFuel -> "OUT-OF-FUEL")
+       | ["dev"; dfl; msgs] ->
+         (* device-service level (Client/DeviceHostile.v): dev <stores 0/1><guards 0/1> <msg;msg;...>
+              msg = E:<utc>:<uptime> | R:<tag>,<tag>,.. (tag = four 0/1: FirstSeenUTC FirstSeenUptime LastSeenUTC LastSeenUptime
+                    present; "R:" = no tags) | X (undecodable)
+            the j-th message is handled at device time 1000000*(j+1)
+            answer: panicked=<0|1> published=<n> reader_start_set=<0|1> rewrote=<0|1> *)
+         let z_of_int (i:int) : z = if i = 0 then Z0 else if i > 0 then Zpos (pos_of_int i) else Zneg (pos_of_int (-i)) in
+         let fl = { stores_reader_start = (dfl.[0] = '1'); process_guards_nil = (dfl.[1] = '1') } in
+         let opt c v = if c = '1' then Some (z_of_int v) else None in
+         let parse j m =
+           let now = z_of_int (1000000 * (j + 1)) in
+           match String.split_on_char ':' m with
+           | ["E"; utc; up] -> (now, MEvent (z_of_int (int_of_string utc), z_of_int (int_of_string up)))
+           | ["R"; tags] ->
+             let tl = if tags = "" then [] else String.split_on_char ',' tags in
+             (now, MReport (List.map (fun t -> { t_first_utc = opt t.[0] 1; t_first_uptime = opt t.[1] 2;
+                                                  t_last_utc = opt t.[2] 3; t_last_uptime = opt t.[3] 4 }) tl))
+           | _ -> (now, MUndecodable) in
+         let ms = if msgs = "-" then [] else List.mapi parse (String.split_on_char ';' msgs) in
+         let r = dev_run fl ms in
+         (* rewrote: a published report carries a tag with FirstSeenUptime whose FirstSeenUTC is no longer the value sent (1) *)
+         let rewrote = List.exists (function
+             | MReport tags -> List.exists (fun t -> t.t_first_uptime <> None &&
+                                                      (match t.t_first_utc with Some v -> v <> z_of_int 1 | None -> false)) tags
+             | _ -> false) r.ds_published in
+         Printf.printf "panicked=%s published=%d reader_start_set=%s rewrote=%s\n" (if r.ds_panicked then "1" else "0")
+           (List.length r.ds_published) (match r.ds_reader_start with Some _ -> "1" | None -> "0") (if rewrote then "1" else "0")
        | [""] -> ()
        | _ -> print_endline "error: bad request")
     done
